@@ -227,6 +227,12 @@ func (r *Report) finish(t0 time.Time, list bool, only *Obligation) int {
 			got[o.Rule]++
 		}
 	}
+	if r.p.trusted == nil {
+		r.p.trusted = []string{}
+	}
+	if r.p.assumptions == nil {
+		r.p.assumptions = []string{"go/packages, go/types and go/ssa (x/tools v0.29.0) represent /repo's source faithfully"}
+	}
 	cov := map[string]interface{}{
 		"obligations":         len(r.obls),
 		"discharged":          nDis,
